@@ -1,4 +1,5 @@
 import Aoe.Lemmas.MapElev
+import Aoe.Lemmas.MapElevRange
 /-!
 # C20 – elevation editing raises exactly the requested area and keeps the terrain smooth
 
@@ -185,6 +186,38 @@ theorem setElevation_eq_pyramid_partial (s : Nat) (b e : Int) (x1 y1 x2 y2 : Nat
   rw [pyramid_get s b e x1 y1 x2 y2 x y (by omega) (by omega),
     pyramid_rect b e x1 y1 x2 y2 x y (by omega) (by omega) (by omega) (by omega)]
   simpa [elevAt, hsz] using this
+
+/-! ### range of the operational result (narrows the unproved `setElevation_eq_pyramid`) -/
+
+/-- **elevations_stay_in_range**: an interval that contains every elevation of the map and the requested elevation
+contains every elevation after `set_elevation` - for every start map (flat or not), every argument list (valid or
+not), every fuel, the pinned and the repaired code.  The recursion only ever writes the source tile's elevation or
+one step from it towards the neighbour's, so it can neither overshoot the request nor dig below / pile above what
+was there. -/
+theorem elevations_stay_in_range (fs : Bool) (fuel : Nat) (m m' : Map) (e x1 y1 : Int) (x2 y2 : Option Int)
+    (lo hi : Int) (hm : ∀ (k : Nat) (t : Tile), m.tiles[k]? = some t → lo ≤ t.elevation ∧ t.elevation ≤ hi) (h1 : lo ≤ e) (h2 : e ≤ hi)
+    (h : setElevation fs fuel m e x1 y1 x2 y2 = .ok m') :
+    ∀ (k : Nat) (t : Tile), m'.tiles[k]? = some t → lo ≤ t.elevation ∧ t.elevation ≤ hi :=
+  setElevation_bnd fs fuel m m' e x1 y1 x2 y2 lo hi hm h1 h2 h
+
+theorem flat_elev (s : Nat) (b : Int) (k : Nat) (t : Tile) (h : (flat s b).tiles[k]? = some t) : t.elevation = b := by
+  simp only [flat, resetIndices, List.getElem?_mapIdx, List.getElem?_replicate] at h
+  split at h
+  · simp at h; subst h; rfl
+  · simp at h
+
+/-- on a flat map of elevation `b` the operational result lies between `b` and the requested `e` everywhere - the
+same bounds the closed form has (`pyramid_between`) -/
+theorem flat_result_between (fs : Bool) (fuel : Nat) (s : Nat) (b e x1 y1 : Int) (x2 y2 : Option Int) (m' : Map)
+    (h : setElevation fs fuel (flat s b) e x1 y1 x2 y2 = .ok m') :
+    ∀ (k : Nat) (t : Tile), m'.tiles[k]? = some t → min b e ≤ t.elevation ∧ t.elevation ≤ max b e :=
+  elevations_stay_in_range fs fuel (flat s b) m' e x1 y1 x2 y2 (min b e) (max b e)
+    (fun k t ht => by rw [flat_elev s b k t ht]; omega) (by omega) (by omega) h
+
+/-- non-vacuity: a non-flat 3×3 map within `[0, 4]`, raised to 3 at its centre (repaired code), returns normally -/
+example : ((setElevation true 10
+    { size := 3, tiles := resetIndices ([0,4,0, 1,0,2, 4,0,0].map (fun e => { Tile.fresh with elevation := e })) }
+    3 1 1 none none).map (fun m => m.tiles.map (·.elevation))).toOption.isSome = true := by decide +kernel
 
 /-! ### non-vacuity and sanity: concrete maps, border-touching rectangles, lowering, operational = closed form -/
 
